@@ -13,14 +13,17 @@ Inductive case :=
 
 (** what the theorems assume of a history and a filter list (admission gate,
     functional ids, the scoping decisions of DESIGN.md 9) *)
-Definition spec_pre (es : list event) (fs : list rfilter) (maxLimit : Z) : bool :=
-  forallb gate_valid_event es && ids_functionalb es && e_refs_canonical es && a_refs_scoped es &&
-  match fs with [] => false | _ => true end && forallb gate_valid_filter fs && (0 <? maxLimit).
+Definition hist_pre (es : list event) : bool :=
+  forallb gate_valid_event es &&& ids_functionalb es &&& e_refs_canonical es &&& a_refs_scoped es.
 
-Definition spec_accepts (es : list event) (fs : list rfilter) (maxLimit : Z) (obs : qres) : bool :=
-  if spec_pre es fs maxLimit then
+Definition query_pre (fs : list rfilter) (maxLimit : Z) : bool :=
+  match fs with [] => false | _ => true end &&& forallb gate_valid_filter fs &&& (0 <? maxLimit).
+
+(** [hp] = hist_pre es, [L] = live_list es, computed once per step *)
+Definition spec_accepts (hp : bool) (L : list event) (fs : list rfilter) (maxLimit : Z) (obs : qres) : bool :=
+  if hp &&& query_pre fs maxLimit then
     match obs with
-    | QOk out => query_specb es fs maxLimit out
+    | QOk out => query_specb_L L fs maxLimit out
     | QErr => false
     end
   else true.
@@ -31,8 +34,10 @@ Fixpoint run_steps (maxLimit : Z) (s : db) (es : list event) (steps : list step)
   | (b, qs) :: rest =>
       let s' := insert_batch 0 s b in
       let es' := es ++ b in
+      let hp := hist_pre es' in
+      let L := if hp then live_list es' else [] in
       let m := forallb (fun q => model_accepts s' (fst q) maxLimit (snd q)) qs in
-      let o := forallb (fun q => spec_accepts es' (fst q) maxLimit (snd q)) qs in
+      let o := forallb (fun q => spec_accepts hp L (fst q) maxLimit (snd q)) qs in
       let '(m', o') := run_steps maxLimit s' es' rest in
       (m && m', o && o')
   end.
